@@ -1,5 +1,6 @@
 (* C11 — rule application is deterministic under any match or insertion order.  Statements only. *)
 Require Import RIO.Base RIO.ActionModel RIO.ActionSpec RIO.ActionProofs.
+Require Import RIO.Prefix RIO.Route RIO.Tree RIO.TreeProofs RIO.TreeInst RIO.Matchers RIO.MatcherSpec RIO.PathProofs RIO.RouterSpec RIO.RouterHist RIO.RouterProofs.
 
 (* the action depends only on the SET of matched rules: any permutation of a duplicate-free match
    list gives the same action (hence the same serialisation, which is a function of the action) *)
@@ -17,6 +18,15 @@ Theorem C11_order_is_rank_then_id : forall l,
   Sorted.StronglySorted (fun a b => (r_rank b < r_rank a)%N \/ (r_rank a = r_rank b /\ str_ltb (r_id a) (r_id b) = false)) (sort_rules l).
 Proof. exact sort_rules_order. Qed.
 
+(* inserting the same rules in a different order gives a router that matches the same rules for every request
+   (router model of C01/C02; together with C11_permutation: the same action) *)
+Theorem C11_insertion_order : forall lower eng valid ic_host ic_path always,
+  engine_dotstar eng -> engine_prefix_law eng ->
+  forall (rs rs' : list route) (q : request), Forall (ok_route lower) rs -> NoDup (ids rs) -> Permutation rs rs' ->
+  Permutation (router_match lower eng valid ic_host ic_path always q (rbuild lower eng valid ic_host ic_path always rs))
+              (router_match lower eng valid ic_host ic_path always q (rbuild lower eng valid ic_host ic_path always rs')).
+Proof. exact build_match_any_order. Qed.
+
 (* Non-vacuity / necessity of the hypothesis: with a duplicated id the order of the list can matter *)
 Example C11_example :
   let a := {| r_id := [97]%N; r_rank := 1; r_status := Some 301%N; r_target := None; r_codes := None; r_excl := None; r_hf := []; r_bf := [];
@@ -30,3 +40,4 @@ Proof. cbv zeta. split; [repeat constructor; cbn; intuition discriminate|]. vm_c
 Print Assumptions C11_permutation.
 Print Assumptions C11_order_determined.
 Print Assumptions C11_order_is_rank_then_id.
+Print Assumptions C11_insertion_order.
